@@ -16,13 +16,14 @@
 (*   cassandra/segment.py     SegmentCodec.decode_header / decode, SegmentHeader.segment_length,   *)
 (*                            header_length_with_crc, CrcException                                  *)
 (*                                                                            *)
-(* This module describes the *protocol-correct receiver*.  The frame layer is   *)
-(* Framing.tla unchanged (EXTENDS): its `wire`/`sent` are here the frame-level  *)
-(* byte stream not yet / already handed over by the segment layer, so all of    *)
-(* Framing's invariants are checked on the messages.  Sizes are scaled: the     *)
-(* model's MaxPayload is 4 and a frame header AbsHdr = 2 bytes; header and CRC   *)
-(* lengths are the real ones.  The harness maps model offsets to real offsets    *)
-(* (MAX_PAYLOAD_LENGTH = 131071) boundary by boundary.                           *)
+(* This module describes the *protocol-correct receiver* with the loop structure *)
+(* of process_io_buffer (per turn: at most one segment taken, at most one frame   *)
+(* delivered).  The frame layer is Framing.tla (EXTENDS): its `wire`/`sent` are   *)
+(* here the frame-level byte stream not yet / already handed over by the segment  *)
+(* layer, so Framing's invariants are checked on the messages.  Sizes are scaled: *)
+(* the model's MaxPayload is 4 and a frame header AbsHdr = 2 bytes; header and    *)
+(* CRC lengths are the real ones.  The harness maps model offsets to real offsets *)
+(* (MAX_PAYLOAD_LENGTH = 131071) boundary by boundary.                            *)
 (*                                                                            *)
 (* Bytes on the network are tagged <<s, r, o>>: byte o of region r of segment s, *)
 (* r in "h" (header) "c" (CRC24) "p" (payload as is) "z" (compressed payload)    *)
@@ -119,9 +120,9 @@ Init_S ==
 (* the decoded payload of segment s: its piece of the frame stream *)
 ChunkOf(s) == SubSeq(Wire, segs[s].lo + 1, segs[s].hi)
 
-RECURSIVE SegDrain(_)
-SegDrain(st) ==     \* st = [segbuf, nseg, defunct, f (frame layer record), fsent]
-    IF st.defunct \/ Len(st.segbuf) < HL + 3 THEN st                       \* not even a header: wait
+(* _process_segment_buffer: one attempt to take one segment out of the io buffer *)
+TrySegment(st) ==     \* st = [segbuf, nseg, defunct, consumed, f (frame layer record), fsent]
+    IF Len(st.segbuf) < HL + 3 THEN [st EXCEPT !.consumed = FALSE]          \* not even a header: wait
     ELSE
       LET hb == SubSeq(st.segbuf, 1, HL + 3)
           s  == hb[1][1]
@@ -134,7 +135,7 @@ SegDrain(st) ==     \* st = [segbuf, nseg, defunct, f (frame layer record), fsen
         LET n   == PLenOf(segs[s])                                         \* payload_length field
             tot == HL + 3 + n + 4                                          \* the whole segment on the wire
         IN
-        IF Len(st.segbuf) < tot THEN st                                    \* header only so far: wait
+        IF Len(st.segbuf) < tot THEN [st EXCEPT !.consumed = FALSE]        \* header only so far: wait
         ELSE
           LET pb == SubSeq(st.segbuf, HL + 3 + 1, HL + 3 + n)
               qb == SubSeq(st.segbuf, HL + 3 + n + 1, tot)
@@ -144,18 +145,32 @@ SegDrain(st) ==     \* st = [segbuf, nseg, defunct, f (frame layer record), fsen
               bad == (\E o \in 1..n : Bad(pb[o])) \/ (\E o \in 1..4 : Bad(qb[o]))
           IN
           IF ~run \/ bad THEN [st EXCEPT !.defunct = TRUE]                  \* decode: CRC32 mismatch
-          ELSE SegDrain([st EXCEPT !.segbuf = SubSeq(@, tot + 1, Len(@)),
-                                   !.nseg = @ + 1,
-                                   !.f = Feed(frames, @, ChunkOf(s)),      \* payload -> frame buffer, frames drained
-                                   !.fsent = @ + Len(ChunkOf(s))])
+          ELSE [st EXCEPT !.segbuf = SubSeq(@, tot + 1, Len(@)),           \* reset_io_buffer keeps the tail
+                          !.nseg = @ + 1, !.consumed = TRUE,
+                          !.f = [@ EXCEPT !.buf = @ \o ChunkOf(s)],        \* payload -> cql frame buffer
+                          !.fsent = @ + Len(ChunkOf(s))]
+
+(* the `while True` of process_io_buffer with checksumming: per turn at most one segment is taken and at *)
+(* most one frame delivered; the loop gives up as soon as a segment attempt did not yield a segment,    *)
+(* even if complete frames are still waiting in the frame buffer (they are delivered by a later read;   *)
+(* when the io buffer is empty nothing complete is left behind - Inv_Eager_S)                            *)
+RECURSIVE Loop(_)
+Loop(st) ==
+    LET s1 == IF Len(st.segbuf) > 0 THEN TrySegment(st) ELSE st IN
+    IF s1.defunct \/ ~s1.consumed THEN s1
+    ELSE LET f1 == ParseHeader(frames, s1.f) IN
+         IF CanDeliver(frames, f1) THEN Loop([s1 EXCEPT !.f = Deliver(frames, f1)])
+         ELSE IF Len(s1.segbuf) > 0 /\ ~f1.desync THEN Loop([s1 EXCEPT !.f = f1])
+         ELSE [s1 EXCEPT !.f = f1]
 
 SRead(k) ==
     /\ ~defunct
     /\ k \in 1..Len(net)
     /\ nsent' = nsent + k
     /\ net' = SubSeq(net, k + 1, Len(net))
-    /\ LET r == SegDrain([segbuf |-> segbuf \o SubSeq(net, 1, k), nseg |-> nseg, defunct |-> FALSE,
-                          f |-> FState, fsent |-> sent]) IN
+    /\ LET r == Loop([segbuf |-> segbuf \o SubSeq(net, 1, k), nseg |-> nseg, defunct |-> FALSE,
+                       consumed |-> FALSE,      \* _segment_consumed: recomputed by the first turn (io buffer not empty)
+                       f |-> FState, fsent |-> sent]) IN
        /\ segbuf' = r.segbuf /\ nseg' = r.nseg /\ defunct' = r.defunct
        /\ SetF(r.f)
        /\ sent' = r.fsent
@@ -187,6 +202,10 @@ Inv_SegEager ==
 
 Inv_NoSpuriousCrc == corrupt.seg = 0 => ~defunct
 
+(* Framing's Inv_Eager (every complete frame delivered, header parsed as soon as it is there) holds whenever *)
+(* no partial segment is waiting in the io buffer; in particular at the end of the stream                   *)
+Inv_Eager_S == (~defunct /\ segbuf = <<>>) => Inv_Eager
+
 Inv_Complete == (corrupt.seg = 0 /\ net = <<>>) => (NDone = N /\ buf = <<>> /\ segbuf = <<>>)
 
 (* where a corruption must have been noticed: header regions as soon as header+CRC24 are in, *)
@@ -210,4 +229,5 @@ Witness_PlainInComp == ~(codec = "comp" /\ nseg >= 1 /\ ~segs[1].z)
 Witness_ZInComp     == ~(nseg >= 1 /\ segs[1].z)
 Witness_WaitPayload == ~(~defunct /\ Len(segbuf) >= HL + 3)
 Witness_AllDone_S   == ~(net = <<>> /\ NDone = N /\ NSegs >= 2)
+Witness_Lag         == ~(~defunct /\ segbuf # <<>> /\ ~Inv_Eager)      \* a complete frame waits behind a partial segment
 =============================================================================
